@@ -484,8 +484,8 @@ def corr_parse(ctx, res, stmts, norms=(False, True), label="D:parse"):
         M = ctx.model.map([("parse", ["1" if norm else "0", "1", s]) for s in stmts])
         for s, i, m in zip(stmts, I, M):
             mo = model_outcome(m)
-            if mo[0] == "unsupported":
-                res.corr[label + ":unsupported"] = res.corr.get(label + ":unsupported", 0) + 1
+            if mo[0] in ("unsupported", "outoffuel"):
+                res.corr[label + ":" + mo[0]] = res.corr.get(label + ":" + mo[0], 0) + 1
                 continue
             io = impl_outcome(i)
             if io[0] == "ok":
@@ -507,8 +507,8 @@ def corr_run(ctx, res, texts, label="F:run"):
     M = ctx.model.map([("run", ["0", "1", "sql", "1", "0", escaped(t)]) for t in texts])
     for t, i, m in zip(texts, I, M):
         mo = model_outcome(m)
-        if mo[0] == "unsupported":
-            res.corr[label + ":unsupported"] = res.corr.get(label + ":unsupported", 0) + 1
+        if mo[0] in ("unsupported", "outoffuel"):       # what the model does not cover / cannot finish is counted, never compared
+            res.corr[label + ":" + mo[0]] = res.corr.get(label + ":" + mo[0], 0) + 1
             continue
         res.corr[label] = res.corr.get(label, 0) + 1
         if not same_outcome(impl_outcome(i), mo):
